@@ -211,8 +211,12 @@ def fft_case(draw, max_n=360):
         n = draw(st.integers(1, 64))
     dtype = draw(st.sampled_from(("c128", "c128", "c128", "f64", "i64")))
     x = draw(fft_data(n, ints=(dtype == "i64")))
-    return {"x": x, "sign": draw(st.sampled_from((1, 1, -1))), "dtype": dtype,
-            "sym": n <= 100 and draw(st.integers(0, 2)) == 0}
+    out = {"x": x, "sign": draw(st.sampled_from((1, 1, -1))), "dtype": dtype,
+           "sym": n <= 100 and draw(st.integers(0, 2)) == 0}
+    w = draw(st.sampled_from((None, None, "c64", "f32")))
+    if w:
+        out["warm"] = w
+    return out
 
 # }}}
 
